@@ -108,6 +108,8 @@ VARIANTS = {
     'plain':      dict(cxx='g++',     flags=['-O2', '-DVX_WRAP_MALLOC', '-Wl,--wrap=malloc,--wrap=calloc,--wrap=realloc,--wrap=free']),
     'plain-clang':dict(cxx='clang++', flags=['-O2', '-DVX_WRAP_MALLOC', '-Wl,--wrap=malloc,--wrap=calloc,--wrap=realloc,--wrap=free']),
     'asan-gcc':   dict(cxx='g++',     flags=['-O1', '-g', '-fsanitize=address,undefined', '-fno-sanitize-recover=all', '-fno-omit-frame-pointer', '-DVX_SAN']),
+    'asan-gcc-O0':dict(cxx='g++',     flags=['-O0', '-g', '-fsanitize=address,undefined', '-fno-sanitize-recover=all', '-fno-omit-frame-pointer', '-DVX_SAN']),
+    'plain-O0':   dict(cxx='g++',     flags=['-O0', '-DVX_WRAP_MALLOC', '-Wl,--wrap=malloc,--wrap=calloc,--wrap=realloc,--wrap=free']),
     'asan-clang': dict(cxx='clang++', flags=['-O1', '-g', '-fsanitize=address,undefined', '-fno-sanitize-recover=all', '-fno-omit-frame-pointer', '-DVX_SAN']),
     'msan':       dict(cxx='clang++', flags=['-O1', '-g', '-fsanitize=memory', '-fno-sanitize-recover=all', '-fno-omit-frame-pointer', '-DVX_MSAN', '-DVX_SAN']),
 }
